@@ -409,6 +409,18 @@ func (a *allocation) CreatePermissions(addrs ...net.Addr) error {
 		return fmt.Errorf("%s", res.Type) //nolint // dynamic errors
 	}
 
+	// Remember the permissions, so that the refresh timer keeps them alive
+	// like the ones installed on behalf of WriteTo / Dial.
+	if a.permMap != nil {
+		for _, addr := range addrs {
+			if _, ok := a.permMap.find(addr); !ok {
+				perm := &permission{}
+				perm.setState(permStatePermitted)
+				a.permMap.insert(addr, perm)
+			}
+		}
+	}
+
 	return nil
 }
 
